@@ -99,10 +99,19 @@ def operator_def(draw, cfg, prev_outputs=(), idx=0, leak=False, funcs=None, coll
         ast, _ = draw(E.expr_strategy(vs, max_depth=max_depth, funcs=funcs, allow_pow=cfg.get("pow", True)))
         vs_used = E.variables(ast)
         used |= vs_used
-        if not vs_used and cfg.get("no_const_rhs", True):
+        if not (vs_used - set(consts)) and cfg.get("no_const_rhs", True) and (states or inputs or avail_alg):
+            # an algebraic variable that depends on parameters only has no vector-valued operand under vectorisation
+            # (the shape of the listed finding F-04b): nine times in ten it gets a state / input / algebraic operand
+            if not vs_used or draw(st.integers(0, 9)) > 0:
+                v0 = draw(st.sampled_from(states + inputs + avail_alg))
+                ast = ["bin", "+", ast, ["var", v0]]
+                vs_used = set(vs_used) | {v0}
+                used |= {v0}
+        elif not vs_used and cfg.get("no_const_rhs", True):
             v0 = draw(st.sampled_from(states + consts if (states + consts) else vs))
             ast = ["bin", "+", ast, ["var", v0]]
             vs_used = {v0}
+            used |= {v0}
         alg_dep_in[z] = any(v in inputs for v in vs_used) or any(alg_dep_in.get(v) for v in vs_used)
         eqs.append([z, False, ast, 0])
         avail_alg.append(z)
@@ -362,6 +371,7 @@ def with_edge_templates(draw, spec, same_keys=None, extra_sources=True):
     if same_keys is None:
         same_keys = draw(st.booleans())
     seen = set()
+    xs_var = {}
     for e in spec["edges"]:
         pre = (e.get("scope") + "/") if e.get("scope") else ""
         pair = (pre + e["s"], pre + e["t"])     # absolute: the same pair may be connected from different circuits
@@ -390,7 +400,16 @@ def with_edge_templates(draw, spec, same_keys=None, extra_sources=True):
                             cands.append(f"{rel}/{o2}/{v[0]}")
             tnode = e["t"].rsplit("/", 2)[0]
             own = [c for c in cands if c.rsplit("/", 2)[0] == tnode]
-            e["xs"] = {f"{o}/t_e": draw(st.sampled_from(own if own and draw(st.integers(0, 3)) else cands))}
+            # (edges that share a template usually read the same variable of their respective target nodes, as in the
+            #  Kuramoto templates; different variables per edge are the shape of the listed finding F-04j under vectorisation)
+            fixed = xs_var.get(e["et"])
+            same_var = [c for c in (own or cands) if fixed and tuple(c.rsplit("/", 2)[1:]) == fixed]
+            if same_var and draw(st.integers(0, 9)) > 0:
+                choice = draw(st.sampled_from(same_var))
+            else:
+                choice = draw(st.sampled_from(own if own and draw(st.integers(0, 3)) else cands))
+            xs_var.setdefault(e["et"], tuple(choice.rsplit("/", 2)[1:]))
+            e["xs"] = {f"{o}/t_e": choice}
     used = {e["et"] for e in spec["edges"] if e.get("et")}
     spec["etypes"] = {k: v for k, v in spec["etypes"].items() if k in used}
     used_ops = {o for et in spec["etypes"].values() for o in et["ops"]}
